@@ -160,6 +160,13 @@ Proof.
       * apply L. exact H.
 Qed.
 
+Lemma flags_irrelevant f g n bg : peq (render (reflag f 0 n) bg) (render (reflag g 0 n) bg).
+Proof.
+  transitivity (render n bg).
+  - apply reflag_invisible. reflexivity.
+  - symmetry. apply reflag_invisible. reflexivity.
+Qed.
+
 (* ---------------------------------------------------------------- opacity *)
 Lemma opacity_nested a b ch bg :
   peq (render (Grp true a [Grp true b ch]) bg) (render (Grp true (a * b) ch) bg).
